@@ -133,6 +133,10 @@ U_C12V(zz) ==
      VDecl([C0 |-> Class(DefaultOpts, <<IntF("a", 2, TRUE, "default"), RefF("s", "C1"), RepCountF("r", RefF("e", "C1"), SzConst(1), NoCond, 0)>>),
             C1 |-> Class(DefaultOpts, <<IntF("x", 1, FALSE, "default"), IntF("y", 3, TRUE, "little")>>)], "full", 1, FALSE),
      V1(<<U1("a"), MvField(DataF("d", SzConst(2)), [kind |-> "at", arg |-> SzField("a"), ref |-> "innermost-pkt"]), U1("z")>>, "full", FALSE),
+     \* three placements: high first, back at the start, then a delimited value that runs into the first one (the failure
+     \* names the delimited field and the position where IT begins)
+     V1(<<MvField(DataF("f", SzConst(2)), [kind |-> "at", arg |-> SzConst(3), ref |-> "innermost-pkt"]),
+          MvField(U1("k"), [kind |-> "at", arg |-> SzConst(0), ref |-> "innermost-pkt"]), DataF("l", SzMarker(<<0>>, FALSE, TRUE))>>, "full", FALSE),
      \* a list where a byte string is expected, for every way of ending the byte string (top level and one level down)
      VDecl([C0 |-> Class(DefaultOpts, <<U1("t"), WithDesc(U1("m"), [kind |-> "check", e |-> EC(0)]), WithDesc(U1("n"), [kind |-> "autolen", of |-> "o"]),
                                         OptF("o", DataF("e", SzConst(1)), SzField("t"))>>)], "subsets", 1, FALSE),
